@@ -25,6 +25,21 @@ partial def ofVal : Val → Json
   | .arr l => Json.arr (l.map ofVal).toArray
   | .obj kvs => Json.mkObj (kvs.map fun (k, v) => (k, ofVal v))
 
+def hexDigit (n : Nat) : Char := if n < 10 then Char.ofNat (48 + n) else Char.ofNat (87 + n)
+
+/-- the UTF-8 octets of a string in hexadecimal: what is compared with the octets of the implementation's strings -/
+def hexOf (s : String) : String :=
+  s.toUTF8.foldl (fun acc b => (acc.push (hexDigit (b.toNat / 16))).push (hexDigit (b.toNat % 16))) ""
+
+/-- a value with every string spelled as its octets (member names: hex, string values: `s:` + hex) -/
+partial def ofValHex : Val → Json
+  | .null => .null
+  | .bool b => .bool b
+  | .num m e => .num ⟨m, e⟩
+  | .str s => .str ("s:" ++ hexOf s)
+  | .arr l => Json.arr (l.map ofValHex).toArray
+  | .obj kvs => Json.mkObj (kvs.map fun (k, v) => (hexOf k, ofValHex v))
+
 /-- gjson syntax the model does not cover -/
 def specialPath (s : String) : Bool :=
   s.toList.any fun c => "*?#|@\\!{}[]:,<>=%~\"'()".toList.contains c
@@ -145,7 +160,8 @@ def presented (a : Json) : Presented :=
 def whyName (w : Why) : String := (reprStr w).replace "Heimdall.Jwt.Why." ""
 
 def verdict : Verdict → Json
-  | .subject id attrs => Json.mkObj [("verdict", "accept"), ("id", jstr id), ("attrs", ofVal attrs)]
+  | .subject id attrs => Json.mkObj [("verdict", "accept"), ("id", jstr id), ("attrs", ofVal attrs),
+      ("id_hex", jstr (hexOf id)), ("attrs_hex", ofValHex attrs)]
   | .refused => Json.mkObj [("verdict", "reject")]
   | .noAuthenticator => Json.mkObj [("verdict", "config")]
   | .unmodelled => Json.mkObj [("verdict", "unmodelled")]
